@@ -735,10 +735,20 @@ pub fn to_sources(rendered: &[Rendered]) -> crate::oal::Sources {
     for r in rendered {
         files.insert(r.file.clone(), r.text.clone());
     }
-    crate::oal::Sources {
+    let sources = crate::oal::Sources {
         main: rendered[0].file.clone(),
         files,
+    };
+    // Developer aid: OALVERIF_TRACE=<file> appends every rendered program before it is evaluated
+    // (to look at a case that kills the process).
+    static TRACE: std::sync::OnceLock<Option<String>> = std::sync::OnceLock::new();
+    if let Some(path) = TRACE.get_or_init(|| std::env::var("OALVERIF_TRACE").ok()) {
+        use std::io::Write;
+        if let Ok(mut f) = std::fs::OpenOptions::new().create(true).append(true).open(path) {
+            let _ = writeln!(f, "{}", sources.to_json());
+        }
     }
+    sources
 }
 
 /// Layout with tape-chosen trivia between tokens: blanks, tabs, LF, CRLF, line comments and block
@@ -915,4 +925,137 @@ impl Program {
             }
         }
     }
+}
+
+// ---------------------------------------------------------------------------------------------
+// Expansion estimate
+
+/// What a parameter is bound to while estimating: the size of a value, or a function.
+#[derive(Clone, Copy)]
+enum Sz {
+    Data(f64),
+    Func(Bid),
+}
+
+struct Expansion<'p> {
+    prog: &'p Program,
+    decls: BTreeMap<Bid, &'p Decl>,
+    memo: BTreeMap<Bid, f64>,
+    in_progress: Vec<Bid>,
+    visits: u64,
+}
+
+impl<'p> Expansion<'p> {
+    fn function_of(&self, e: &E, env: &BTreeMap<Bid, Sz>) -> Option<Bid> {
+        match e {
+            E::Paren(inner) | E::Ann(_, _, inner) => self.function_of(inner, env),
+            E::Var(v) => {
+                let b = v.binder?;
+                match self.prog.binders[b].kind {
+                    BinderKind::Decl { .. } => self.decls.get(&b).filter(|d| !d.params.is_empty()).map(|_| b),
+                    _ => match env.get(&b) {
+                        Some(Sz::Func(f)) => Some(*f),
+                        _ => None,
+                    },
+                }
+            }
+            _ => None,
+        }
+    }
+
+    fn decl_size(&mut self, b: Bid) -> f64 {
+        if let Some(s) = self.memo.get(&b) {
+            return *s;
+        }
+        let Some(d) = self.decls.get(&b).copied() else { return 1.0 };
+        if !d.params.is_empty() || self.in_progress.contains(&b) {
+            return 1.0;
+        }
+        self.in_progress.push(b);
+        let s = self.size(&d.body, &BTreeMap::new());
+        self.in_progress.pop();
+        self.memo.insert(b, s);
+        s
+    }
+
+    fn size(&mut self, e: &E, env: &BTreeMap<Bid, Sz>) -> f64 {
+        self.visits += 1;
+        if self.visits > 400_000 {
+            return f64::INFINITY;
+        }
+        match e {
+            E::Var(v) => match v.binder {
+                None => 1.0,
+                Some(b) => match self.prog.binders[b].kind {
+                    BinderKind::Decl { .. } => self.decl_size(b),
+                    _ => match env.get(&b) {
+                        Some(Sz::Data(s)) => *s,
+                        _ => 1.0,
+                    },
+                },
+            },
+            E::App(v, args) => {
+                let target = match v.binder {
+                    Some(b) => match self.prog.binders[b].kind {
+                        BinderKind::Decl { .. } => Some(b),
+                        _ => match env.get(&b) {
+                            Some(Sz::Func(f)) => Some(*f),
+                            _ => None,
+                        },
+                    },
+                    None => None,
+                };
+                let mut vals = Vec::new();
+                let mut sum = 1.0;
+                for a in args {
+                    match self.function_of(a, env) {
+                        Some(f) => vals.push(Sz::Func(f)),
+                        None => {
+                            let s = self.size(a, env);
+                            sum += s;
+                            vals.push(Sz::Data(s));
+                        }
+                    }
+                }
+                match target.and_then(|f| self.decls.get(&f).copied()) {
+                    Some(d) if !d.params.is_empty() && !self.in_progress.contains(&d.id) => {
+                        let mut inner = BTreeMap::new();
+                        for (p, v) in d.params.iter().zip(vals) {
+                            inner.insert(*p, v);
+                        }
+                        self.in_progress.push(d.id);
+                        let s = self.size(&d.body, &inner);
+                        self.in_progress.pop();
+                        // Arguments are evaluated once, the body once per application.
+                        sum + s
+                    }
+                    _ => sum,
+                }
+            }
+            other => 1.0 + other.children().into_iter().map(|c| self.size(c, env)).sum::<f64>(),
+        }
+    }
+}
+
+/// An estimate of the number of nodes of the values the evaluator builds for the program:
+/// declarations are inlined at every use and function bodies at every application, so the values
+/// of a program of n tokens can have exponentially many nodes. Generators use it to stay within
+/// programs whose evaluation is feasible (a bound on the *input domain*, not on oal).
+pub fn expansion_estimate(prog: &Program) -> f64 {
+    let mut decls = BTreeMap::new();
+    for (_, d) in prog.decls() {
+        decls.insert(d.id, d);
+    }
+    let mut x = Expansion { prog, decls, memo: BTreeMap::new(), in_progress: Vec::new(), visits: 0 };
+    let mut total = 0.0;
+    for m in &prog.modules {
+        for s in &m.stmts {
+            match s {
+                Stmt::Res(e) => total += x.size(e, &BTreeMap::new()),
+                Stmt::Let(d) if d.params.is_empty() => total += x.decl_size(d.id),
+                _ => {}
+            }
+        }
+    }
+    total
 }
